@@ -16,7 +16,13 @@ REPO = "/repo"
 def run_one(patch):
     scratch = tempfile.mkdtemp(prefix="peppi-benign-")
     try:
-        subprocess.check_call(["rsync", "-a", "--exclude", "target", "--exclude", ".git", REPO + "/", scratch + "/"])
+        if os.environ.get("PEPPI_SNAPSHOT") == "head":
+            # development runs: copy HEAD's tree, so that a seeded change being applied to /repo's working tree meanwhile is not picked up
+            tar = subprocess.Popen(["git", "-C", REPO, "archive", "HEAD"], stdout=subprocess.PIPE)
+            subprocess.check_call(["tar", "-x", "-C", scratch], stdin=tar.stdout)
+            tar.wait()
+        else:
+            subprocess.check_call(["rsync", "-a", "--exclude", "target", "--exclude", ".git", REPO + "/", scratch + "/"])
         r = subprocess.run(["patch", "-p1", "--no-backup-if-mismatch", "-s", "-d", scratch, "-i", patch], capture_output=True, text=True)
         if r.returncode != 0:
             return patch, {"_patch": (9, r.stdout + r.stderr)}
